@@ -346,6 +346,11 @@ def oracle_login(f, ctxv):
     first_frame = next((t for it in f.script if it[0] == 'data' for t in it[1] if t != 'hb'), None)
     if r == 'ok' and (first_frame in ('logout', 'bad') or (first_reply is not None and first_reply != 0)):
         ctxv(f'login succeeded although the first reply was not an acceptance (first frame: {first_frame})')
+    if r == 'ok' and res.get('login_active') is False:
+        # "returns an active, logged-in session": active at the moment of return — `is_active()`, i.e. neither closed nor with the
+        # closing task already scheduled (a disconnect reported while the reply travelled from the reader to login())
+        ctxv('login() returned a session that is not active at the moment of return (is_active() is false: '
+             + ('already closed' if res.get('login_closed') else 'the closing task is already scheduled') + ')')
     if r == 'ok':
         early = [o for o in f.obs[:k_ret] if isinstance(o, list) and o[0] == 'msgEnter']
         if early:
@@ -427,11 +432,15 @@ def run_family(ctx, prop):
             if c.get('kind') == 'hostile' or (c.get('replay') or {}).get('kind') == 'hostile':
                 continue            # byte-level hostile streams: run by sess_hostile.run_hostile (C07)
             cases.append((cfg_from_json(c['cfg']), script_from_json(c['script']), c.get('seed', 0), 'corpus:' + fn))
+    if prop == 'C11':
+        for cfg, script in SG.login_window_cases():
+            cases.append((cfg, script, 0, 'login-window'))
     foci = FOCUS[prop]
     for i in range(n):
         focus = foci[i % len(foci)]
         r = random.Random(rng.random())
-        cfg = SG.gen_cfg(r)
+        # C11 quantifies over soup and fix logins: the FIX client session runs the same scenarios (Cfg.fixLogin on the model side)
+        cfg = SG.gen_cfg(r, kind='fix-client' if (prop == 'C11' and r.random() < 0.4) else 'soup-client')
         script = SG.gen_script(r, cfg, focus=focus)
         if prop == 'C07' and r.random() < 0.7:
             script = script + [('advance', 0.001), ('close', 99)]
